@@ -250,4 +250,3 @@ theorem processAction_finishes_owned (c : CS) (o : Oracle) (tmo : Option Time) :
   · simp at h1
   · exact h1
 
-#print axioms processAction_finishes_owned
